@@ -1,7 +1,7 @@
 // C17 correspondence / monitor harness: space-partitioning trees and nearest-neighbour queries.
 // Case file (one output line per input line):
 //   D <kd|lc|khc|khc2> <bucket> <dim> <n> c_0_0 .. c_(n-1)_(dim-1)   integer coordinates (real value = c)
-//        bucket 0 = default TreeConstruction(), else TreeConstruction(0,bucket)
+//        bucket 0 = default TreeConstruction(), bucket > 0: TreeConstruction(0,bucket), bucket < 0: TreeConstruction(-bucket, 0) (depth limit)
 //        kind may carry a power-of-two coordinate scale, e.g. lc/8: real value = c/8, queries h/16, printed squared distances 16*64*d^2
 //   Q h_0 .. h_(dim-1)        query, coordinates in HALF units (real value = h/2)
 //   P <k> <w> h_0 ..          NearestNeighborModel prediction with tree and brute-force back-end (w=1: 1/distance weights)
@@ -178,7 +178,8 @@ int main(int argc, char** argv) {
 				w->cview.reset(new CView(w->cls.inputs()));
 				rview.reset(new View(w->reg.inputs()));
 				w->poly.reset(new PolynomialKernel<RealVector>(2, 1.0));
-				TreeConstruction tc = bucket ? TreeConstruction(0, (unsigned int)bucket) : TreeConstruction();
+				// bucket < 0: depth limit -bucket with the default bucket size, TreeConstruction(depth, 0)
+				TreeConstruction tc = bucket > 0 ? TreeConstruction(0, (unsigned int)bucket) : (bucket < 0 ? TreeConstruction((unsigned int)(-bucket), 0) : TreeConstruction());
 				c17rec::calls.clear(); c17rec::on = true;
 				w->tree.reset(build(w->kind, w->cls.inputs(), w->view.get(), *w, tc));
 				c17rec::on = false;
